@@ -1,0 +1,98 @@
+//go:build verif
+
+package verifhooks
+
+import (
+	"io"
+	"math/big"
+
+	"github.com/mmcloughlin/addchain/acc/ast"
+	"github.com/mmcloughlin/addchain/internal/bigint"
+	"github.com/mmcloughlin/addchain/internal/bigints"
+	"github.com/mmcloughlin/addchain/internal/bigvector"
+	"github.com/mmcloughlin/addchain/internal/calc"
+	"github.com/mmcloughlin/addchain/internal/gen"
+	"github.com/mmcloughlin/addchain/internal/metavars"
+)
+
+// calc.
+
+// CalcEval is calc.Eval.
+func CalcEval(expr string) (*big.Int, error) { return calc.Eval(expr) }
+
+// bigint.
+
+var (
+	BigintHex               = bigint.Hex
+	BigintBinary            = bigint.Binary
+	BigintIsPow2            = bigint.IsPow2
+	BigintPow2              = bigint.Pow2
+	BigintPow2UpTo          = bigint.Pow2UpTo
+	BigintMask              = bigint.Mask
+	BigintOnes              = bigint.Ones
+	BigintBitsSet           = bigint.BitsSet
+	BigintMinMax            = bigint.MinMax
+	BigintExtract           = bigint.Extract
+	BigintUint64s           = bigint.Uint64s
+	BigintBytesLittleEndian = bigint.BytesLittleEndian
+)
+
+// bigints.
+
+var (
+	BigintsSort               = bigints.Sort
+	BigintsIndex              = bigints.Index
+	BigintsContains           = bigints.Contains
+	BigintsContainsSorted     = bigints.ContainsSorted
+	BigintsUnique             = bigints.Unique
+	BigintsInsertSortedUnique = bigints.InsertSortedUnique
+	BigintsMergeUnique        = bigints.MergeUnique
+	BigintsClone              = bigints.Clone
+	BigintsConcat             = bigints.Concat
+)
+
+// bigvector.
+
+// Vector is bigvector.Vector.
+type Vector = bigvector.Vector
+
+var (
+	BigvectorNew      = bigvector.New
+	BigvectorNewBasis = bigvector.NewBasis
+	BigvectorAdd      = bigvector.Add
+	BigvectorLsh      = bigvector.Lsh
+)
+
+// gen.
+
+type (
+	// GenData is gen.Data.
+	GenData = gen.Data
+	// GenConfig is gen.Config.
+	GenConfig = gen.Config
+)
+
+// GenPrepareData is gen.PrepareData.
+func GenPrepareData(cfg GenConfig, s *ast.Chain) (*GenData, error) { return gen.PrepareData(cfg, s) }
+
+// GenGenerate is gen.Generate.
+func GenGenerate(w io.Writer, tmpl string, d *GenData) error { return gen.Generate(w, tmpl, d) }
+
+var (
+	GenBuiltinTemplate      = gen.BuiltinTemplate
+	GenBuiltinTemplateNames = gen.BuiltinTemplateNames
+)
+
+// metavars.
+
+type (
+	// MetavarsProperty is metavars.Property.
+	MetavarsProperty = metavars.Property
+	// MetavarsFile is metavars.File.
+	MetavarsFile = metavars.File
+)
+
+var (
+	MetavarsWrite = metavars.Write
+	MetavarsRead  = metavars.Read
+)
